@@ -32,7 +32,7 @@ type histCase struct {
 }
 
 var histTreeCfg = h.TreeCfg{
-	MaxEntries: 10, MaxDepth: 3, Names: []string{"a", "b", "ab", "a-b", "a.b", "c", "a0", "d"},
+	MaxEntries: 10, MaxDepth: 3, Names: []string{"a", "b", "ab", "a-b", "a.b", "c", "a0", "d", listingName},
 	Xattrs: true, XattrNS: []string{"user.", "trusted."}, Hardlinks: true, SpecialLinks: true, BigFiles: true,
 	SymTargets: []string{"a", "b", "../a", "/a", "dangling"}, UncleanTargets: true,
 }
